@@ -439,6 +439,7 @@ def run_shard(ctx, shard, acc):
         intents = []
         flags = set()
         held = []
+        lastval = {}
         for _ in range(data.draw(st.integers(1, 10 if ctx.quick else 20))):
             k = data.draw(st.sampled_from(['child-inst', 'child-inst', 'child-value', 'child-value', 'child-none',
                                            'child-none', 'attr', 'child-add', 'child-add']))
@@ -466,10 +467,22 @@ def run_shard(ctx, shard, acc):
                     k = 'child-inst'
                 else:
                     good = data.draw(st.integers(0, 4)) > 0
+                    prev = lastval.get(sym)
+                    if isinstance(prev, (int, float)) and not isinstance(prev, bool) and data.draw(st.integers(0, 1)):
+                        # the value the child already holds, spelt as another Python type (2 / 2.0, 1 / True): the
+                        # shortcut must do exactly what value_ = ... does - store it, or raise the same error
+                        alts = [float(prev)] if isinstance(prev, int) else ([int(prev)] if prev == int(prev) else [])
+                        alts += [True] if prev == 1 else ([False] if prev == 0 else [])
+                        if alts:
+                            pv = data.draw(st.sampled_from(alts))
+                            intents.append(['child-value', sym, pv])
+                            flags.add('equal-value-other-type')
+                            continue
                     if good:
                         ok, pv = lexical.python_value_for(tt, data.draw(st.sampled_from(lexical.valid_texts(tt))))
                         if not ok:
                             continue
+                        lastval[sym] = pv
                     else:
                         pv = data.draw(st.sampled_from((lexical.invalid_texts(tt) or []) + [2.5, -3]))
                     intents.append(['child-value', sym, pv])
